@@ -63,8 +63,14 @@ type cluster struct {
 	msgs  int
 	snaps [][2][]byte // per instance: silences, nflog snapshot for the next start
 	wg    sync.WaitGroup
-	stats struct{ sent, dropped, duplicated, blocked int }
+	stats struct{ sent, dropped, duplicated, blocked, storm int }
+	// identical broadcasts per instance: an entry is broadcast when it is logged and once more by every instance
+	// that merges it for the first time (again after a restart rolled the log back); far beyond that is a
+	// re-gossip loop, which the network cuts so that the run ends and the judge can report it
+	same map[string]int
 }
+
+const gossipStormLimit = 24
 
 func (c *cluster) alive(i, epoch int) *Instance {
 	c.mtx.Lock()
@@ -79,6 +85,20 @@ func (c *cluster) alive(i, epoch int) *Instance {
 // send distributes one broadcast of instance `from` to every other instance according to the fates.
 func (c *cluster) send(from int, kind string, b []byte) {
 	msg := append([]byte(nil), b...)
+	c.mtx.Lock()
+	if c.same == nil {
+		c.same = map[string]int{}
+	}
+	k := fmt.Sprintf("%d|%s|%s", from, kind, msg)
+	c.same[k]++
+	storm := c.same[k] > gossipStormLimit
+	if storm {
+		c.stats.storm++
+	}
+	c.mtx.Unlock()
+	if storm {
+		return
+	}
 	for j := 0; j < c.sc.N; j++ {
 		if j == from {
 			continue
@@ -314,7 +334,7 @@ func runCluster(sc *ClusterScenario, tr *Trace) {
 	}
 	c.wg.Wait()
 	synctest.Wait()
-	tr.Net = map[string]int{"sent": c.stats.sent, "dropped": c.stats.dropped, "duplicated": c.stats.duplicated, "blocked_by_link": c.stats.blocked}
+	tr.Net = map[string]int{"sent": c.stats.sent, "dropped": c.stats.dropped, "duplicated": c.stats.duplicated, "blocked_by_link": c.stats.blocked, "storm": c.stats.storm}
 }
 
 // ------------------------------------------------------------ judge
@@ -719,6 +739,9 @@ func JudgeCluster(sc *ClusterScenario, tr *Trace) ([]pbt.Violation, ClusterStats
 		if st.Senders == 1 && st.Deliveries > 0 && sc.N > 1 {
 			st.CrossInstanceDedup = st.Deliveries
 		}
+	}
+	if tr.Net != nil && tr.Net["storm"] > 0 {
+		add(pbt.V("gossip-storm", "one instance broadcast the same notification-log or silence update more than %d times (%d broadcasts cut): updates are re-gossiped without end instead of once per first merge", gossipStormLimit, tr.Net["storm"]))
 	}
 	if tr.Net != nil {
 		st.FaultsThatMattered = tr.Net["dropped"] + tr.Net["blocked_by_link"]
